@@ -1,0 +1,17 @@
+//go:build !verif
+
+package influxql
+
+// Verification hooks (build tag "verif"). Without the tag these are empty
+// types and no-op methods that the compiler inlines away.
+
+type verifReaderState struct{}
+
+func (r *reader) verifNoteRead(real bool) {}
+func (r *reader) verifReplay()            {}
+func (r *reader) verifCurr()              {}
+
+type verifScanState struct{}
+
+func (s *bufScanner) verifStep() {}
+func (s *bufScanner) verifCurr() {}
